@@ -1,4 +1,137 @@
-import Cutplace.Model.Checks
+import Cutplace.Proofs.EngineLemmas
+/-
+C07  Header rows are skipped; the validation limit bounds validation, not data.
+-/
 namespace Cutplace.Props
-theorem C07_placeholder : True := trivial
+open Cutplace
+
+variable {σ : Type}
+
+/-- Rows inside the header window are consumed without any effect: no event, no call, no change of
+state — whatever they contain. -/
+theorem C07_header_skip (cfg : ReaderCfg) (cols : List Column) (checks : List (Check σ)) (fault : Bool)
+    (n : Nat) (hdr data : List Row) (st : RState σ) (h : n + hdr.length ≤ cfg.header) :
+    readLoop cfg cols checks fault n (hdr ++ data) st = readLoop cfg cols checks fault (n + hdr.length) data st := by
+  induction hdr generalizing n with
+  | nil => simp
+  | cons r rs ih =>
+    simp only [List.cons_append, List.length_cons] at h ⊢
+    rw [readLoop]
+    have : ¬ (n + 1 > cfg.header) := by omega
+    simp only [this, if_false]
+    rw [ih (n + 1) (by omega)]
+    congr 1; omega
+
+/-- The header rows are neither validated nor returned, whatever they contain: replacing them by
+any other rows of the same number changes nothing. -/
+theorem C07_header_blind (cfg : ReaderCfg) (cols : List Column) (checks : List (Check σ)) (fault : Bool)
+    (hdr hdr' data : List Row) (before : List σ) (h : hdr.length = cfg.header) (h' : hdr'.length = cfg.header) :
+    readRows cfg cols checks fault (hdr ++ data) before = readRows cfg cols checks fault (hdr' ++ data) before := by
+  unfold readRows
+  rw [C07_header_skip cfg cols checks fault 0 hdr data _ (by omega),
+      C07_header_skip cfg cols checks fault 0 hdr' data _ (by omega), h, h']
+
+/-- Beyond the validation limit rows are returned unchanged and unvalidated: one `row` event each,
+counted as accepted, no call into any field or check, check states untouched. -/
+theorem C07_beyond_limit (cfg : ReaderCfg) (cols : List Column) (checks : List (Check σ)) (fault : Bool)
+    (l n : Nat) (rows : List Row) (st : RState σ) (hl : cfg.limit = some l) (hn : l ≤ n) (hh : cfg.header ≤ n) :
+    let r := readLoop cfg cols checks fault n rows st
+    r.events = rows.map Event.row ∧ r.log = [] ∧ r.st.sts = st.sts ∧
+      r.st.accepted = st.accepted + rows.length ∧ r.st.rejected = st.rejected ∧
+      r.final = (if fault then .format (n + rows.length) else .exhausted) := by
+  induction rows generalizing n st with
+  | nil => simp [readLoop]
+  | cons row rest ih =>
+    rw [readLoop]
+    have h1 : n + 1 > cfg.header := by omega
+    have h2 : inLimit cfg.limit (n + 1) = false := by simp [inLimit, hl]; omega
+    simp only [h1, if_true, h2, Bool.false_eq_true, if_false]
+    have := ih (n + 1) { st with accepted := st.accepted + 1 } (by omega) (by omega)
+    simp only [] at this ⊢
+    obtain ⟨e1, e2, e3, e4, e5, e6⟩ := this
+    refine ⟨by simp [e1], e2, e3, by simp [e4]; omega, e5, ?_⟩
+    rw [e6]; simp only [List.length_cons]
+    split <;> simp <;> omega
+
+/-- `N = 0` validates nothing: every data row is returned as it is and nothing is called. -/
+theorem C07_zero (mode : Mode) (header : Nat) (cols : List Column) (checks : List (Check σ))
+    (hdr data : List Row) (before : List σ) (h : hdr.length = header) :
+    let r := readRows ⟨mode, header, some 0⟩ cols checks false (hdr ++ data) before
+    r.events = data.map Event.row ∧ r.log = resetCalls checks.length ∧ r.final = .exhausted ∧ r.st.rejected = 0 := by
+  unfold readRows
+  simp only []
+  rw [C07_header_skip ⟨mode, header, some 0⟩ cols checks false 0 hdr data _ (by simp; omega)]
+  have := C07_beyond_limit ⟨mode, header, some 0⟩ cols checks false 0 (0 + hdr.length) data
+    ⟨checks.map (·.reset), 0, 0⟩ rfl (by omega) (by simp; omega)
+  simp only [Nat.zero_add] at this ⊢
+  obtain ⟨e1, e2, _, _, e5, e6⟩ := this
+  simp [e1, e2, e5, e6]
+
+/-- An error is only ever reported for a row after the header and not beyond the limit. -/
+theorem C07_errors_in_window (cfg : ReaderCfg) (cols : List Column) (checks : List (Check σ)) (fault : Bool)
+    (n : Nat) (rows : List Row) (st : RState σ) (line : Nat) (e : RowErr)
+    (h : Event.err line e ∈ (readLoop cfg cols checks fault n rows st).events ∨
+         (readLoop cfg cols checks fault n rows st).final = .raised line e) :
+    n ≤ line ∧ cfg.header < line + 1 ∧ inLimit cfg.limit (line + 1) = true := by
+  induction rows generalizing n st with
+  | nil => simp [readLoop] at h; split at h <;> simp at h
+  | cons row rest ih =>
+    rw [readLoop] at h
+    by_cases hh : n + 1 > cfg.header
+    · simp only [hh, if_true] at h
+      by_cases hl : inLimit cfg.limit (n + 1) = true
+      · simp only [hl, if_true] at h
+        generalize hv : validateRow cols checks st.sts row n = vr at h
+        obtain ⟨sts', err, log⟩ := vr
+        simp only [] at h
+        cases err with
+        | none =>
+          simp only [List.mem_cons, reduceCtorEq, false_or] at h
+          have := ih (n + 1) _ h
+          exact ⟨by omega, this.2⟩
+        | some e' =>
+          cases hm : cfg.mode with
+          | raise =>
+            simp only [hm, List.not_mem_nil, false_or, Final.raised.injEq] at h
+            obtain ⟨rfl, _⟩ := h
+            exact ⟨Nat.le_refl _, by omega, hl⟩
+          | yield =>
+            simp only [hm, List.mem_cons, Event.err.injEq] at h
+            rcases h with (⟨rfl, _⟩ | h) | h
+            · exact ⟨Nat.le_refl _, by omega, hl⟩
+            · have := ih (n + 1) _ (Or.inl h); exact ⟨by omega, this.2⟩
+            · have := ih (n + 1) _ (Or.inr h); exact ⟨by omega, this.2⟩
+          | «continue» =>
+            simp only [hm] at h
+            have := ih (n + 1) _ h
+            exact ⟨by omega, this.2⟩
+      · simp only [hl, Bool.false_eq_true, if_false, List.mem_cons, reduceCtorEq, false_or] at h
+        have := ih (n + 1) _ h
+        exact ⟨by omega, this.2⟩
+    · simp only [hh, if_false] at h
+      have := ih (n + 1) _ h
+      exact ⟨by omega, this.2⟩
+
+/-- `CutplaceApp.set_options`: `--until -1` means no limit, `n ≥ 0` means limit `n`, anything below is
+a usage error (`none`). -/
+def untilOption (n : Int) : Option (Option Nat) :=
+  if n = -1 then some none else if n ≥ 0 then some (some n.toNat) else none
+
+theorem C07_cli_until (n : Int) :
+    (n = -1 → untilOption n = some none) ∧ (0 ≤ n → untilOption n = some (some n.toNat)) ∧
+      (n < -1 → untilOption n = none) := by
+  unfold untilOption
+  refine ⟨fun h => by simp [h], fun h => ?_, fun h => ?_⟩
+  · have : n ≠ -1 := by omega
+    simp [this, h]
+  · have h1 : n ≠ -1 := by omega
+    have h2 : ¬ n ≥ 0 := by omega
+    simp [h1, h2]
+
+/-- non-vacuity: header 1, limit 2: the bad third row is beyond the limit and comes back as it is -/
+example :
+    let col : Column := ⟨fun v => .inr v, fun v => v != ['x']⟩
+    (readRows (σ := Unit) ⟨.yield, 1, some 2⟩ [col] [] false [[['x']], [['x']], [['x']]] []).events
+      = [.err 1 (.field 0), .row [['x']]] := by decide
+
 end Cutplace.Props
